@@ -378,6 +378,8 @@ func runRevCaseFull(c *revCase) (string, string, map[string]any, []certOut, bool
 		}
 		res, err = call()
 	}()
+	// the call has returned (or re-raised a panic): none of its exchanges may still be under way
+	inFlightAtReturn := int(atomic.LoadInt32(&exchangesInFlight))
 	c.Summary = summarizeResults(res, err)
 	evsMain := seq.all() // the exchanges of this call (before any concurrent-caller phase adds its own)
 	// nothing is left behind: the goroutines the call started have finished when it returns
@@ -391,6 +393,10 @@ func runRevCaseFull(c *revCase) (string, string, map[string]any, []certOut, bool
 			break
 		}
 		time.Sleep(time.Millisecond)
+	}
+	if inFlightAtReturn > 0 && c.GoroutineDelta <= 0 {
+		c.GoroutineDelta = inFlightAtReturn // reported through the same observable: work of the call outlived the call
+		desc["in_flight_at_return"] = inFlightAtReturn
 	}
 	// concurrent callers sharing the validator, the client and the fetcher must all see the same results
 	c.CallersAgree = true
